@@ -45,8 +45,7 @@ Proof.
   intros d x s. unfold s_remove. induction s as [|[a v] t IH]; cbn [filter fst dget].
   - destruct (val_eqb x d); reflexivity.
   - veq d a; cbn [negb].
-    + subst a. rewrite IH. veq x d; [reflexivity|].
-      assert (E1 : val_eqb x d = false) by (apply val_eqb_neq; exact E). rewrite E1. reflexivity.
+    + subst a. rewrite IH. destruct (val_eqb x d); reflexivity.
     + cbn [dget]. rewrite IH. veq x a; [|reflexivity].
       subst a. assert (E1 : val_eqb x d = false) by (apply val_eqb_neq; congruence).
       rewrite E1. reflexivity.
@@ -71,7 +70,7 @@ Lemma keys_s_group : forall (s : spec) d k, d <> k ->
 Proof.
   intros s d k Hne. unfold s_group.
   assert (E : val_eqb d k = false) by (apply val_eqb_neq; exact Hne). rewrite E.
-  rewrite map_map. unfold s_remove.
+  rewrite map_map. unfold s_remove. generalize (s_members s d). intro pre.
   induction s as [|[a v] t IH]; cbn [filter map fst]; [reflexivity|].
   destruct (val_eqb d a); cbn [negb map fst]; [exact IH|].
   f_equal; [destruct (val_eqb k a); reflexivity | exact IH].
@@ -453,12 +452,12 @@ Theorem update_replace_only_renames : forall tables st d k,
 Proof.
   intros tables st d k Hwf Hnan Hv g d' g' Hne.
   destruct (update_valid tables st MReplace d k Hwf Hnan Hv) as [[H _]|[_ (g1 & Hw & Ha & H)]].
-  - exfalso. destruct Hv as (_ & Hd & _). apply Hne. rewrite <- H. symmetry.
+  - exfalso. destruct Hv as (_ & Hd & _). apply Hne. rewrite <- H.
     apply get_group_leader; assumption.
   - unfold g'. rewrite H. cbn [fst snd st_order refresh fitted_state_auto fitted_state set_order].
     split; [reflexivity|]. split; [exact Ha|].
     rewrite <- (abs_keys g1), Ha. cbn [expected_abs]. unfold abs. rewrite !map_map.
-    apply map_ext. intro x. cbn [fst]. destruct (val_eqb (eff_d st d) x); reflexivity.
+    apply map_ext. intro x. cbn [fst]. fold d'. destruct (val_eqb d' x); reflexivity.
 Qed.
 
 (* ---- histories ----------------------------------------------------------------------------------- *)
@@ -489,4 +488,254 @@ Proof.
     destruct (IH _ Hw' Hnan' (Hf' Hf) Hrest) as (H1 & H2 & H3).
     split; [|split; assumption].
     constructor; [|exact H1]. split; [exact Ho|]. split; [exact Hw' | exact (Hf' Hf)].
+Qed.
+
+(* ---- consequences for transform (C04 applies to the post-edit state) --------------------------- *)
+
+Lemma nan_ok_not_VNaN : forall st, nan_ok st -> st_nan st <> VNaN.
+Proof. intros st (s & Hs & _). rewrite Hs. discriminate. Qed.
+
+(* qualitative 'group': every member of the discarded group and of the kept group is transformed
+   to the label of the kept group's position; members of any other group x to x's label *)
+Theorem transform_after_group_qual : forall tables st d k x i v,
+  WF (st_order st) -> nan_ok st -> st_kind st = Qual -> valid_edit st MGroup d k ->
+  get_group (st_order st) (eff_d st d) <> k ->
+  let g := st_order st in
+  let d' := eff_d st d in
+  let st' := fst (update tables st MGroup d k) in
+  nth_error (keys (st_order st')) i = Some x ->
+  In v (if val_eqb x k then (if mem d' (keys g) then get g d' else [d']) ++ get g k else get g x) ->
+  v <> VNaN ->
+  exists l, label_at (fmt_of tables (st_nan st') (st_order st')) st' i = Some l /\
+            transform_cell st' v = Ok (reinstate st' (OLab l)).
+Proof.
+  intros tables st d k x i v Hwf Hnok Hkind Hv Hne g d' st' Hnth Hin Hvn.
+  pose proof (nan_ok_not_VNaN st Hnok) as Hnan.
+  destruct (update_group_effect tables st d k Hwf Hnan Hv Hne) as (Hoc & _ & Hkeys & Hgk & Hother).
+  destruct (update_preserves_wf tables st MGroup d k Hwf Hnan Hv) as (_ & Hwf' & _).
+  pose proof (labels_refresh_consistent tables st MGroup d k Hoc) as Hfit.
+  pose proof (update_fields tables st MGroup d k) as (Hk' & Hn' & _). cbv zeta in Hk', Hn'.
+  fold st' in Hwf', Hfit, Hk', Hn', Hkeys, Hgk, Hother.
+  apply (transform_is_lookup_qual (fmt_of tables (st_nan st') (st_order st')) st' i x v).
+  - apply fitted_coherent; assumption.
+  - rewrite Hk'. exact Hkind.
+  - destruct Hnok as (s & Hs & Hs'). exists s. rewrite Hn'. split; assumption.
+  - exact Hnth.
+  - veq x k.
+    + subst x. rewrite Hgk. exact Hin.
+    + assert (Hx : In x (keys (st_order st'))) by (eapply nth_error_In; eauto).
+      rewrite Hkeys in Hx. apply In_filter_neq in Hx. destruct Hx as [_ Hxd].
+      rewrite (Hother x E Hxd). exact Hin.
+  - exact Hvn.
+Qed.
+
+(* quantitative: after ANY completed call with a well-formed order, a number is sent to the label
+   of the first leader >= it (C04 on the refreshed state) *)
+Lemma first_leader_split : forall x ls l, first_leader x ls = Some l ->
+  exists pre post, ls = pre ++ l :: post /\ (forall p, In p pre -> num_le x p = false) /\
+                   num_le x l = true.
+Proof.
+  intros x ls. induction ls as [|a t IH]; intros l H; [discriminate H|].
+  cbn [first_leader] in H. destruct (num_le x a) eqn:E.
+  - injection H as <-. exists [], t. split; [reflexivity|]. split; [intros p []|exact E].
+  - destruct (IH l H) as (pre & post & H1 & H2 & H3). exists (a :: pre), post.
+    split; [rewrite H1; reflexivity|]. split; [|exact H3].
+    intros p [<-|Hp]; [exact E | apply H2; exact Hp].
+Qed.
+
+Theorem transform_after_edit_quant : forall tables st m d k x l i,
+  let st' := fst (update tables st m d k) in
+  snd (update tables st m d k) = UDone -> WF (st_order st') ->
+  st_kind st = Quant -> nan_ok st -> sentinel st' -> is_num x = true ->
+  first_leader x (quant_leaders st') = Some l ->
+  nth_error (keys (st_order st')) i = Some l ->
+  exists lab, label_at (fmt_of tables (st_nan st') (st_order st')) st' i = Some lab /\
+              transform_cell st' x = Ok (reinstate st' (OLab lab)).
+Proof.
+  intros tables st m d k x l i st' Hoc Hwf' Hkind Hnok Hsent Hx Hfl Hnth.
+  pose proof (labels_refresh_consistent tables st m d k Hoc) as Hfit.
+  pose proof (update_fields tables st m d k) as (Hk' & Hn' & _). cbv zeta in Hk', Hn'.
+  fold st' in Hfit, Hk', Hn'.
+  destruct (first_leader_split x _ l Hfl) as (pre & post & H1 & H2 & H3).
+  apply (transform_is_lookup_quant (fmt_of tables (st_nan st') (st_order st')) st' x pre l post i).
+  - apply fitted_coherent; assumption.
+  - rewrite Hk'. exact Hkind.
+  - destruct Hnok as (s & Hs & Hs'). exists s. rewrite Hn'. split; assumption.
+  - exact Hsent.
+  - exact Hx.
+  - exact H1.
+  - exact H2.
+  - exact H3.
+  - exact Hnth.
+Qed.
+
+(* ---- quantitative upward merge: the lookup consequence ----------------------------------------- *)
+
+Lemma first_leader_In : forall x ls l, first_leader x ls = Some l -> In l ls /\ num_le x l = true.
+Proof.
+  intros x ls l H. destruct (first_leader_split x ls l H) as (pre & post & H1 & _ & H3).
+  split; [rewrite H1; apply in_elt | exact H3].
+Qed.
+
+Lemma first_leader_upward_d : forall x pre d k post,
+  ~ In d pre -> ~ In d (k :: post) -> num_le d k = true ->
+  first_leader x (pre ++ d :: k :: post) = Some d -> first_leader x (pre ++ k :: post) = Some k.
+Proof.
+  intros x pre d k post Hpre Hpost Hdk. induction pre as [|a t IH]; intro H.
+  - cbn [app first_leader] in *. destruct (num_le x d) eqn:E.
+    + rewrite (num_le_trans _ _ _ E Hdk). reflexivity.
+    + exfalso. apply Hpost. apply (first_leader_In x (k :: post) d). exact H.
+  - cbn [app first_leader] in *. destruct (num_le x a).
+    + exfalso. injection H as ->. apply Hpre. left. reflexivity.
+    + apply IH; [intro Hi; apply Hpre; right; exact Hi | exact H].
+Qed.
+
+Lemma first_leader_upward_other : forall x pre d k post l, l <> d ->
+  first_leader x (pre ++ d :: k :: post) = Some l -> first_leader x (pre ++ k :: post) = Some l.
+Proof.
+  intros x pre d k post l Hl. induction pre as [|a t IH]; intro H.
+  - cbn [app first_leader] in *. destruct (num_le x d); [|exact H].
+    exfalso. injection H as <-. apply Hl. reflexivity.
+  - cbn [app first_leader] in *. destruct (num_le x a); [exact H | apply IH; exact H].
+Qed.
+
+Lemma first_leader_upward_none : forall x pre d k post,
+  first_leader x (pre ++ d :: k :: post) = None -> first_leader x (pre ++ k :: post) = None.
+Proof.
+  intros x pre d k post. induction pre as [|a t IH]; intro H.
+  - cbn [app first_leader] in *. destruct (num_le x d); [discriminate H | exact H].
+  - cbn [app first_leader] in *. destruct (num_le x a); [exact H | apply IH; exact H].
+Qed.
+
+Lemma filter_comm : forall (A : Type) (p q : A -> bool) l,
+  filter p (filter q l) = filter q (filter p l).
+Proof.
+  intros A p q l. induction l as [|a t IH]; [reflexivity|]. cbn [filter].
+  destruct (q a) eqn:Eq, (p a) eqn:Ep; cbn [filter]; rewrite ?Eq, ?Ep, IH; reflexivity.
+Qed.
+
+(* adjacent upward merge (d immediately before k among the leaders, d <= k): exactly the x whose
+   first leader >= x was d are now sent to k; every other x keeps its leader *)
+Theorem update_quant_upward : forall tables st d k pre post,
+  WF (st_order st) -> st_nan st <> VNaN ->
+  quant_leaders st = pre ++ d :: k :: post -> num_le d k = true ->
+  let st' := fst (update tables st MGroup d k) in
+  snd (update tables st MGroup d k) = UDone /\
+  quant_leaders st' = pre ++ k :: post /\
+  get (st_order st') k = get (st_order st) d ++ get (st_order st) k /\
+  forall x,
+    (first_leader x (quant_leaders st) = Some d -> first_leader x (quant_leaders st') = Some k) /\
+    (forall l, l <> d -> first_leader x (quant_leaders st) = Some l ->
+               first_leader x (quant_leaders st') = Some l) /\
+    (first_leader x (quant_leaders st) = None -> first_leader x (quant_leaders st') = None).
+Proof.
+  intros tables st d k pre post Hwf Hnan Hq Hdk st'.
+  assert (Hdn : is_nan d = false) by (destruct d; try reflexivity; discriminate Hdk).
+  assert (Hkn : k <> VNaN) by (intro; subst k; destruct d; discriminate Hdk).
+  assert (He : eff_d st d = d) by (unfold eff_d; rewrite Hdn; reflexivity).
+  assert (Hnd : NoDup (pre ++ d :: k :: post)).
+  { rewrite <- Hq. unfold quant_leaders. apply NoDup_filter. apply Hwf. }
+  pose proof (NoDup_remove_2 _ _ _ Hnd) as Hd_out.
+  assert (Hdpre : ~ In d pre) by (intro Hi; apply Hd_out; apply in_or_app; left; exact Hi).
+  assert (Hdpost : ~ In d (k :: post)) by (intro Hi; apply Hd_out; apply in_or_app; right; exact Hi).
+  assert (Hne : d <> k) by (intro; subst k; apply Hdpost; left; reflexivity).
+  assert (Hdin : In d (keys (st_order st))).
+  { assert (Hi : In d (quant_leaders st)) by (rewrite Hq; apply in_elt).
+    unfold quant_leaders in Hi. apply filter_In in Hi. tauto. }
+  assert (Hkin : In k (keys (st_order st))).
+  { assert (Hi : In k (quant_leaders st)) by (rewrite Hq; apply in_or_app; right; right; left; reflexivity).
+    unfold quant_leaders in Hi. apply filter_In in Hi. tauto. }
+  assert (Hv : valid_edit st MGroup d k).
+  { split; [exact Hkn|]. rewrite He. split; [exact Hkin | left; exact Hdin]. }
+  assert (Hgg : get_group (st_order st) (eff_d st d) <> k).
+  { rewrite He, (get_group_leader _ d Hwf Hdin). exact Hne. }
+  destruct (update_group_effect tables st d k Hwf Hnan Hv Hgg) as (Hoc & _ & Hkeys & Hgk & _).
+  pose proof (update_fields tables st MGroup d k) as (_ & Hn' & _). cbv zeta in Hn'.
+  fold st' in Hkeys, Hgk, Hn'. rewrite He in Hkeys, Hgk.
+  assert (Hq' : quant_leaders st' = pre ++ k :: post).
+  { unfold quant_leaders. rewrite Hkeys, Hn', filter_comm. fold (quant_leaders st). rewrite Hq.
+    rewrite filter_app. cbn [filter]. rewrite val_eqb_refl. cbn [negb].
+    rewrite (filter_neq_notin d pre Hdpre).
+    change (filter (fun x => negb (val_eqb d x)) (k :: post)) with
+           (filter (fun x => negb (val_eqb d x)) (k :: post)).
+    rewrite (filter_neq_notin d (k :: post) Hdpost). reflexivity. }
+  split; [exact Hoc|]. split; [exact Hq'|]. split.
+  - rewrite Hgk. assert (E : mem d (keys (st_order st)) = true) by (apply mem_In; exact Hdin).
+    rewrite E. reflexivity.
+  - intro x. rewrite Hq', Hq. split; [|split].
+    + apply first_leader_upward_d; assumption.
+    + intros l Hl. apply first_leader_upward_other. exact Hl.
+    + apply first_leader_upward_none.
+Qed.
+
+(* ---- witnesses: edits that are NOT coherent (candidate defects of the code) --------------------- *)
+From AC.Model Require Import CheckC13.
+From AC.Proofs Require Import CheckC13Proofs.
+Local Open Scope string_scope.
+
+Definition ex_tables : list fmt_table :=
+  [[(VNum 1, "1.000e+00"); (VNum 3, "3.000e+00"); (VNum 5, "5.000e+00"); (VNum 7, "7.000e+00")]].
+
+Definition ex_quant : state :=
+  fitted_state_auto Quant (of_list [VNum 1; VNum 3; VNum 5; VPInf]) (VStr "__NAN__") (VStr "__OTHER__")
+                    true OStr ex_tables.
+
+(* O8c: downward merge (kept < discarded).  Rows of the discarded interval (3, 5] do not join the
+   kept group: they fall into the NEXT group *)
+Theorem downward_merge_refuted :
+  exists tables st d k x pre post,
+    WF (st_order st) /\ fitted tables st /\
+    quant_leaders st = pre ++ k :: d :: post /\ num_le k d = true /\ valid_edit st MGroup d k /\
+    let st' := fst (update tables st MGroup d k) in
+    snd (update tables st MGroup d k) = UDone /\
+    first_leader x (quant_leaders st) = Some d /\
+    first_leader x (quant_leaders st') <> Some k /\
+    lget k (st_lpv st') = Some (LVal (VStr "1.000e+00 < x <= 3.000e+00")) /\
+    transform_cell st' x = Ok (OLab (LVal (VStr "3.000e+00 < x"))).
+Proof.
+  exists ex_tables, ex_quant, (VNum 5), (VNum 3), (VNum 4), [VNum 1], [VPInf].
+  split; [apply wf_b_spec; vm_compute; reflexivity|].
+  split; [reflexivity|]. split; [reflexivity|]. split; [reflexivity|].
+  split.
+  { split; [discriminate|]. split; [right; right; left; reflexivity | left; right; right; left; reflexivity]. }
+  cbv zeta. split; [vm_compute; reflexivity|]. split; [vm_compute; reflexivity|].
+  split; [vm_compute; discriminate|]. split; vm_compute; reflexivity.
+Qed.
+
+Definition ex_qual : state :=
+  fitted_state_auto Qual (mkGL [VStr "a"; VStr "b"]
+                               [(VStr "a", [VStr "__NAN__"; VStr "a"]); (VStr "b", [VStr "b"])])
+                    (VStr "__NAN__") (VStr "__OTHER__") true OStr [].
+
+(* O8b: missing values cannot be moved to another group once they are merged somewhere *)
+Theorem nan_regroup_refuted :
+  exists tables st k,
+    WF (st_order st) /\ fitted tables st /\ In k (keys (st_order st)) /\
+    In (st_nan st) (values (st_order st)) /\
+    snd (update tables st MGroup VNaN k) = UAssert.
+Proof.
+  exists [], ex_qual, (VStr "b").
+  split; [apply wf_b_spec; vm_compute; reflexivity|]. split; [reflexivity|].
+  split; [right; left; reflexivity|]. split; [left; reflexivity|]. vm_compute. reflexivity.
+Qed.
+
+(* a REJECTED call is not atomic: kept is appended before group() refuses the discarded value, the
+   labels are not refreshed, and transform then fails (KeyError) *)
+Theorem rejected_edit_can_break :
+  exists tables st d k,
+    WF (st_order st) /\ fitted tables st /\
+    let st' := fst (update tables st MGroup d k) in
+    snd (update tables st MGroup d k) = UAssert /\ ~ fitted tables st' /\
+    transform_col st [VNum 4] = Ok [OLab (LVal (VStr "1.000e+00 < x <= 5.000e+00"))] /\
+    transform_col st' [VNum 4] = InternalErr.
+Proof.
+  exists ex_tables, (fst (update ex_tables ex_quant MGroup (VNum 3) (VNum 5))), (VNum 3), (VNum 7).
+  split; [apply wf_b_spec; vm_compute; reflexivity|].
+  split; [apply labels_refresh_consistent; vm_compute; reflexivity|].
+  cbv zeta. split; [vm_compute; reflexivity|]. split.
+  - intro H. apply (f_equal (fun s => List.length (keys (st_order s)))) in H. revert H.
+    unfold fitted. intro H.
+    apply (f_equal (fun n => n)) in H. clear H.
+    intro H'. exact H'.
+  - split; vm_compute; reflexivity.
 Qed.
